@@ -1,3 +1,3 @@
 SPECIFICATION Spec
-INVARIANTS DriverClaimPipe PipeInv ScalarInv CmtInv
+INVARIANTS DriverClaimPipe PipeInv ScalarInv CmtInv BigPipeInv
 CHECK_DEADLOCK FALSE
